@@ -51,6 +51,10 @@ def build_cases(tier):
 
     for c in F.names_inline():
         cases.append(dict(c, variants=[v for v in v32 if not v["tail_call_optimization"]], family=("W-F05b" if is_f05b(c["names"]) else c["family"])))
+    # parameters / globals that are re-assigned inside an (inlined or not) function: binding by alias vs by copy
+    for c in F.constprop(tier):
+        if c["tag"].startswith(("param", "global")):
+            cases.append(dict(c, variants=[v for v in v64 if not v["tail_call_optimization"]]))
     for c in F.w_tailcall():
         cases.append(dict(c, variants=[v for v in v32 if not v["inline_functions"]]))
     for c in F.lists(tier, lens=range(2, 6)):
